@@ -154,6 +154,24 @@ class Source:
         line = impl.line + impl.text.count('\n', 0, b)
         return Item(name or fn_name, self.rel, line, t)
 
+    def method_anywhere(self, fn_name, name=None):
+        """A method found by its name alone (the file has several impl blocks with the same header); the name
+        must be defined exactly once in the file."""
+        ms = list(re.finditer(_FN_HDR % re.escape(fn_name), self.text))
+        if len(ms) != 1:
+            raise ExtractError('anchor %s: fn %s defined %d times in %s' % ('lost' if not ms else 'ambiguous', fn_name, len(ms), self.rel))
+        b, o, e = fn_span(self.text, fn_name)
+        lines = self.text[:b].split('\n')
+        k = len(lines) - 2
+        while k >= 0 and re.match(r'\s*(///|#\[|//)', lines[k]):
+            k -= 1
+        begin = len('\n'.join(lines[:k + 1])) + (1 if k >= 0 else 0)
+        t = self.text[begin:e]
+        ind = len(re.match(r'[ \t]*', self.text[b:]).group(0))
+        if ind:
+            t = dedent(t, ind)
+        return Item(name or fn_name, self.rel, self._line_of(b), t)
+
     def has(self, regex):
         return re.compile(regex, re.M | re.S).search(self.text) is not None
 
@@ -184,9 +202,20 @@ def fn_span(text, fn_name, nth=0):
     p = text.find('(', m.end())
     # generic params may precede '(' — find_top from the fn name handles <> as plain chars
     close = match_close(text, p, '(', ')')
-    o = find_top(text, '{', close)
+    # the body '{' is the first top-level '{' outside spliced contract text
+    j = close
+    while True:
+        o = find_top(text, '{', j)
+        so = text.find(SP_OPEN, j)
+        if so >= 0 and (o < 0 or so < o):
+            sc = text.find(SP_CLOSE, so)
+            if sc < 0:
+                raise ExtractError('unterminated splice')
+            j = sc + len(SP_CLOSE)
+            continue
+        break
     semi = find_top(text, ';', close)
-    if o < 0 or (0 <= semi < o):
+    if o < 0 or (0 <= semi < o and text.find(SP_OPEN, close, semi) < 0):
         raise ExtractError('fn %s has no body' % fn_name)
     e = match_brace(text, o)
     return m.start(), o, e
